@@ -20,6 +20,29 @@ Fixpoint name_eqb (a b : name) : bool :=
    [l_width] is the declared integer width of the field. *)
 Record loc := mkloc { l_field : name; l_idx : Z; l_width : Z; l_len : Z }.
 
+(* The body of a dedicated accessor (an arm of MinidumpContext::get_stack_pointer /
+   get_instruction_pointer), regenerated from the source as an expression over the
+   context's integer fields.  Widths are made explicit by the translator's type checker:
+   [ACast e from to] is `e as u<to>` with e : u<from>; [ANot e w] is `!e` at u<w>;
+   [AShl e k w] is `e << k` at u<w> (literal k < w); literals are already reduced to
+   their type.  Operators that can trap or wrap (+ - * / %) are not in the language:
+   the translator aborts on them. *)
+Inductive aexp :=
+| ALoc (l : loc)
+| ALit (z : Z)
+| AVar (x : name)
+| ACast (e : aexp) (from to : Z)
+| AAnd (a b : aexp) | AOr (a b : aexp) | AXor (a b : aexp)
+| ANot (e : aexp) (w : Z)
+| AShl (e : aexp) (k w : Z)
+| AShr (e : aexp) (k : Z)
+| AIf (c : bexp) (a b : aexp)
+| ALet (x : name) (e body : aexp)
+with bexp :=
+| BLit (b : bool)
+| BEq (a b : aexp) | BNe (a b : aexp)
+| BAnd (a b : bexp) | BOr (a b : bexp) | BNot (a : bexp).
+
 Record ctx_table := {
   ct_name : name;                              (* CONTEXT_X86 ... *)
   ct_variant : name;                           (* MinidumpRawContext variant *)
@@ -31,7 +54,8 @@ Record ctx_table := {
   ct_groups : list (list name * list name);  (* register_is_valid, Some(which): patterns => which.contains(a) || ...; `_ => which.contains(reg)` *)
   ct_sp_name : name;                           (* stack_pointer_register_name() *)
   ct_ip_name : name;                           (* instruction_pointer_register_name() *)
-  ct_sp_loc : loc;                               (* MinidumpContext::get_stack_pointer arm *)
-  ct_ip_loc : loc;                               (* MinidumpContext::get_instruction_pointer arm *)
+  ct_sp_acc : aexp;                              (* MinidumpContext::get_stack_pointer arm (whole body) *)
+  ct_ip_acc : aexp;                              (* MinidumpContext::get_instruction_pointer arm (whole body) *)
+  ct_fields : list (name * Z * Z);               (* the struct's integer fields: (name, element width, array length or -1) *)
   ct_gpr : list name                           (* MinidumpContext::general_purpose_registers arm (REGISTERS of the named type) *)
 }.
